@@ -27,8 +27,11 @@ ASSUME = [
 
 # Tolerances, measured on the unchanged tree (see manifest note): relative error of the returned MEAN
 # against numerical integration.
-TOL_MEAN_EP = 0.02        # on tuples recorded from EP runs: measured max 0.54 %
-TOL_MEAN_GEN = 0.10       # on perturbed / log-uniform coherent tuples with shapes >= 1: measured max 5.2 %
+TOL_MEAN_EP = 0.05        # tuples recorded from EP runs: measured max 1.7 % (240 integrated tuples per wrapper)
+TOL_MEAN_GEN = 0.10       # perturbed recorded tuples: measured max 3.3 %; log-uniform coherent tuples with
+                          # shapes >= 1: measured max 5.1 % (750 situations x 5 families)
+TOL_VAR_EP = 0.30         # VARIANCE on recorded tuples only: measured max 3 % (not part of the property text's
+                          # accuracy clause; it makes variance-only formula edits produce a failing input)
 TOL_CLOSED = 1e-10        # closed-form cases
 
 GROUP = None
@@ -211,6 +214,20 @@ def check_update(ctx, fn, args, tol_mean, with_ref, source):
                 pairs = [(means[0], r["mn_m"], "mutation")]
             else:
                 pairs = [(means[0], r["mn"], "node")]
+            if source == "recorded":
+                vars_ = [nat_var(p) for p in pars]
+                if fn in ("gamma_projection", "unphased_projection"):
+                    vpairs = [(vars_[0], r["va_i"], "parent"), (vars_[1], r["va_j"], "child")]
+                elif fn.startswith("mutation_"):
+                    vpairs = [(vars_[0], r["va_m"], "mutation")]
+                else:
+                    vpairs = [(vars_[0], r["va"], "node")]
+                for got, want, what in vpairs:
+                    e = rel(got, want)
+                    ctx.notes["max_rel_err_var_recorded"] = max(ctx.notes.get("max_rel_err_var_recorded", 0.0), e)
+                    if not e <= TOL_VAR_EP:
+                        ctx.oracle_fail("variance:%s" % fn, "%s variance %r, numerical integration %r (relative error %.3g > %g)" % (
+                            what, got, want, e, TOL_VAR_EP), case)
             for got, want, what in pairs:
                 e = rel(got, want)
                 ctx.notes["max_rel_err_mean_" + source] = max(ctx.notes.get("max_rel_err_mean_" + source, 0.0), e)
